@@ -108,7 +108,7 @@ func selectFuncs(g *Global, prop, fnFilter string) ([]*Contract, []string) {
 				continue
 			}
 		}
-		if fnFilter != "" && !strings.Contains(k, fnFilter) {
+		if fnFilter != "" && !strings.Contains(k, fnFilter) && !(strings.HasPrefix(fnFilter, "file:") && strings.Contains(c.File, fnFilter[5:])) {
 			continue
 		}
 		if _, ok := g.funcs[k]; !ok {
@@ -208,6 +208,70 @@ func main() {
 		os.Exit(cmdVerify(os.Args[2:]))
 	case "check":
 		os.Exit(cmdCheck(os.Args[2:]))
+	case "sweep":
+		// development aid: generate VCs for every module function matching the substring with an
+		// empty contract and report generator problems (nothing is claimed from a sweep)
+		g, err := LoadGlobal("/repo", nil)
+		if err != nil {
+			fmt.Fprintln(os.Stderr, err)
+			os.Exit(2)
+		}
+		pat := ""
+		if len(os.Args) > 2 {
+			pat = os.Args[2]
+		}
+		var ks []string
+		for k, fn := range g.funcs {
+			if g.isModuleFn(fn) && strings.Contains(k, pat) && len(fn.Blocks) > 0 {
+				ks = append(ks, k)
+			}
+		}
+		sort.Strings(ks)
+		nOK, nUns, nPanic := 0, 0, 0
+		reasons := map[string]int{}
+		for _, k := range ks {
+			func() {
+				defer func() {
+					if r := recover(); r != nil {
+						nPanic++
+						fmt.Printf("PANIC %s: %v\n", k, r)
+					}
+				}()
+				c := g.contracts.Funcs[k]
+				if c == nil {
+					c = &Contract{Key: k, Loops: map[int]*LoopSpec{}}
+				}
+				fr := GenerateFunc(g, g.funcs[k], c)
+				if fr.Err != nil {
+					fmt.Printf("ERR %s: %v\n", k, fr.Err)
+					nUns++
+					return
+				}
+				if len(fr.Unsupported) > 0 {
+					nUns++
+					for _, u := range fr.Unsupported {
+						if i := strings.Index(u, ": "); i >= 0 {
+							u = u[i+2:]
+						}
+						if len(u) > 50 {
+							u = u[:50]
+						}
+						reasons[u]++
+					}
+					return
+				}
+				nOK++
+			}()
+		}
+		fmt.Printf("%d functions: %d generated, %d unsupported, %d generator panics\n", len(ks), nOK, nUns, nPanic)
+		var rs []string
+		for r := range reasons {
+			rs = append(rs, fmt.Sprintf("%5d %s", reasons[r], r))
+		}
+		sort.Sort(sort.Reverse(sort.StringSlice(rs)))
+		for _, r := range rs {
+			fmt.Println(r)
+		}
 	case "ssa":
 		g, err := LoadGlobal("/repo", nil)
 		if err != nil {
